@@ -21,7 +21,7 @@ def timing_scenario(rng, n, plens, outgoing):
 class C20(HndBase):
     id = "C20"
     proof_target = "Props/C20.vo"
-    theorems = ["C20_silent", "C20_live", "C20_only_timer_counts", "C20_emit", "C20_release"]
+    theorems = ["C20_silent", "C20_live", "C20_only_timer_counts", "C20_emit", "C20_release", "C20_live_interval_survives", "C20_silent_run_closes", "C20_handshake_stays"]
     coq_header = ("From Rdest Require Import Base Consts Wire Manager Handler Corr.Hnd.\nOpen Scope N_scope.\n"
                   "Definition codes := codes20.\n")
     rule = ("connections under tokio's paused clock: waits chosen around the 120 s timer instants (k*120 s -10 ms / +0 / +1 ms, "
